@@ -269,6 +269,12 @@ def bean_layer(ctx):
                   'SELECT account, date, count(*) AS n FROM #postings GROUP BY account, 1, date, 2',
                   'SELECT date, account, currency, count(*) AS n FROM #postings GROUP BY 2, account, 1, 3'):
             type_oracle(ctx, conn, q, 'repeated-grouping-key')
+        # BETWEEN whose bounds are NULL on part of the rows (postings held without cost)
+        for q in ('SELECT number BETWEEN 0 AND cost_number AS x FROM #postings', 'SELECT date BETWEEN 1900-01-01 AND cost_date AS x FROM #postings',
+                  'SELECT number BETWEEN cost_number AND 100000 AS x FROM #postings', 'SELECT cost_number BETWEEN 0 AND 100000 AS x FROM #postings',
+                  'SELECT account FROM #postings WHERE number BETWEEN -100000 AND cost_number',
+                  'SELECT count(*) AS n FROM #postings WHERE date BETWEEN cost_date AND 2100-01-01'):
+            type_oracle(ctx, conn, q, 'between-null-bounds')
         # structured attributes
         for sname, attrs in facts['structures'].items():
             base = {'position': ('position', 'postings'), 'cost': ('position.cost', 'postings'), 'amount': ('price', 'postings'),
